@@ -104,7 +104,7 @@ def pnmTable {n : Nat} (W : AMat Rat n) (c : Vector Int n) : List (List Rat) :=
 def qUnd {n : Nat} (A : AMat Rat n) (γ : Rat) (c : Vector Int n) : Option Rat :=
   let k : Fin n → Rat := fun j => sumFin fun i => A.get i j
   let m := sumFin k
-  if m = 0 then none else
+  if m = 0 then (if n = 0 then some 0 else none) else      -- no nodes: the code sums an empty array (0.0), no 0/0 arises
   some (sumFin fun i => sumFin fun j => if c[i] - c[j] = 0 then (A.get i j - γ * (k i * k j) / m) / m else 0)
 
 /-- `modularity_dir(A, gamma, kci)[1]` -/
@@ -112,7 +112,7 @@ def qDir {n : Nat} (A : AMat Rat n) (γ : Rat) (c : Vector Int n) : Option Rat :
   let ki : Fin n → Rat := fun j => sumFin fun i => A.get i j
   let ko : Fin n → Rat := fun i => sumFin fun j => A.get i j
   let m := sumFin ki
-  if m = 0 then none else
+  if m = 0 then (if n = 0 then some 0 else none) else
   let b : Fin n → Fin n → Rat := fun i j => A.get i j - γ * (ko i * ki j) / m
   some (sumFin fun i => sumFin fun j => if c[i] - c[j] = 0 then (b i j + b j i) / (2 * m) else 0)
 
@@ -297,6 +297,10 @@ def step (line : String) : String :=
   let (op, kv) := parseLine line
   let res : Option String := do
     let n ← (← lookup kv "n").toNat?
+    -- on zero nodes every routine that loops `for i in range(1, np.max(ci) + 1)` raises ValueError (np.max of an empty array);
+    -- modularity_und/_dir, ci2ls, ls2ci and agreement do not
+    if n = 0 ∧ (op == "pcoef" || op == "pcoef_sign" || op == "zscore" || op == "diversity" || op == "gateway" ||
+        op == "q_sign" || op == "pdist") then some "error=ValueError" else
     match op with
     | "relabel" =>
       let c ← parseVec n (← lookup kv "c")
